@@ -175,6 +175,10 @@ Qed.
 (* counters bound everything the genome holds; a recorded link innovation number denotes that link
    wherever the genome carries the number; the two numbers of a recorded node innovation denote
    the two genes around the recorded node *)
+(* the innovation numbers a record carries *)
+Definition inn_nums (i : innovation) : list Z :=
+  if Z.eqb (i_type i) 1 then [i_num i; i_num2 i] else [i_num i].
+
 Record env_ok (e : ienv) (g : genome) : Prop := {
   eo_innov : forall x, In x (genes g) -> g_innov x <= next_innov e;
   eo_node : forall n, In n (nodes g) -> n_id n <= next_node e;
@@ -185,7 +189,9 @@ Record env_ok (e : ienv) (g : genome) : Prop := {
                          (g_innov x = i_num2 i -> g_in x = i_node i);
   eo_rec : forall i, In i (innovs e) ->
                      i_num i <= next_innov e /\
-                     (i_type i = 1 -> i_num i <> i_num2 i /\ i_num2 i <= next_innov e /\ i_node i <= next_node e)
+                     (i_type i = 1 -> i_num i <> i_num2 i /\ i_num2 i <= next_innov e /\ i_node i <= next_node e);
+  (* different records carry different numbers (every e_store follows fresh e_next_innov draws) *)
+  eo_uniq : NoDup (flat_map inn_nums (innovs e))
 }.
 
 (* e' extends e: counters only grow and every added record carries numbers issued after e *)
@@ -193,6 +199,7 @@ Record env_extends (e e' : ienv) : Prop := {
   ee_innov : next_innov e <= next_innov e';
   ee_node : next_node e <= next_node e';
   ee_records : exists added, innovs e' = innovs e ++ added /\
+                 NoDup (flat_map inn_nums added) /\
                  forall i, In i added ->
                            next_innov e < i_num i <= next_innov e' /\
                            (i_type i = 1 -> next_innov e < i_num2 i <= next_innov e' /\ i_num i <> i_num2 i /\
@@ -200,22 +207,50 @@ Record env_extends (e e' : ienv) : Prop := {
 }.
 
 Lemma env_extends_refl e : env_extends e e.
-Proof. constructor; try lia. exists []. split; [now rewrite app_nil_r|intros i []]. Qed.
+Proof. constructor; try lia. exists []. split; [now rewrite app_nil_r|split; [constructor|intros i []]]. Qed.
+
+Lemma inn_nums_bounds (lo hi : Z) (l : list innovation) :
+  (forall i, In i l -> lo < i_num i <= hi /\ (i_type i = 1 -> lo < i_num2 i <= hi)) ->
+  forall z, In z (flat_map inn_nums l) -> lo < z <= hi.
+Proof.
+  intros H z Hz. apply in_flat_map in Hz. destruct Hz as [i [Hi Hz]]. destruct (H i Hi) as [H1 H2].
+  unfold inn_nums in Hz. destruct (Z.eqb_spec (i_type i) 1) as [E|_].
+  - specialize (H2 E). destruct Hz as [<-|[<-|[]]]; lia.
+  - destruct Hz as [<-|[]]; lia.
+Qed.
+
+Lemma NoDup_app_disjoint {A} (a b : list A) :
+  NoDup a -> NoDup b -> (forall x, In x a -> In x b -> False) -> NoDup (a ++ b).
+Proof.
+  induction a as [|x a IH]; intros Ha Hb Hd; [exact Hb|].
+  inversion Ha as [|? ? Hx Ha']; subst. cbn [app]. constructor.
+  - rewrite in_app_iff. intros [H|H]; [contradiction|]. apply (Hd x); [now left|exact H].
+  - apply IH; try assumption. intros y Hy Hy'. apply (Hd y); [now right|exact Hy'].
+Qed.
 
 Lemma env_extends_trans a b c : env_extends a b -> env_extends b c -> env_extends a c.
 Proof.
-  intros [Hi1 Hn1 [ad1 [E1 R1]]] [Hi2 Hn2 [ad2 [E2 R2]]]. constructor; try lia.
-  exists (ad1 ++ ad2). split; [now rewrite E2, E1, app_assoc|].
-  intros i Hi. apply in_app_or in Hi. destruct Hi as [Hi|Hi].
-  - destruct (R1 i Hi) as [H1 H2]. split; [lia|]. intros Ht. specialize (H2 Ht). lia.
-  - destruct (R2 i Hi) as [H1 H2]. split; [lia|]. intros Ht. specialize (H2 Ht). lia.
+  intros [Hi1 Hn1 [ad1 [E1 [U1 R1]]]] [Hi2 Hn2 [ad2 [E2 [U2 R2]]]]. constructor; try lia.
+  exists (ad1 ++ ad2). split; [now rewrite E2, E1, app_assoc|]. split.
+  - rewrite flat_map_app. apply NoDup_app_disjoint; try assumption.
+    intros z Hz1 Hz2.
+    assert (B1 : next_innov a < z <= next_innov b).
+    { apply (inn_nums_bounds _ _ ad1); [|exact Hz1]. intros i Hi. destruct (R1 i Hi) as [H1 H2].
+      split; [lia|]. intros Ht. specialize (H2 Ht). lia. }
+    assert (B2 : next_innov b < z <= next_innov c).
+    { apply (inn_nums_bounds _ _ ad2); [|exact Hz2]. intros i Hi. destruct (R2 i Hi) as [H1 H2].
+      split; [lia|]. intros Ht. specialize (H2 Ht). lia. }
+    lia.
+  - intros i Hi. apply in_app_or in Hi. destruct Hi as [Hi|Hi].
+    + destruct (R1 i Hi) as [H1 H2]. split; [lia|]. intros Ht. specialize (H2 Ht). lia.
+    + destruct (R2 i Hi) as [H1 H2]. split; [lia|]. intros Ht. specialize (H2 Ht). lia.
 Qed.
 
 (* a genome that was consistent with the environment stays so when the environment is extended:
    the new records only speak about numbers the genome cannot hold *)
 Lemma env_ok_extends e e' g : env_ok e g -> env_extends e e' -> env_ok e' g.
 Proof.
-  intros [Hi Hn Hl Hs Hr] [Ei En [added [E R]]]. constructor.
+  intros [Hi Hn Hl Hs Hr Hu] [Ei En [added [E [U R]]]]. constructor.
   - intros x Hx. specialize (Hi x Hx). lia.
   - intros n Hn'. specialize (Hn n Hn'). lia.
   - intros i x Hin Ht Hx Hnum. rewrite E in Hin. apply in_app_or in Hin. destruct Hin as [Hin|Hin].
@@ -227,4 +262,15 @@ Proof.
   - intros i Hin. rewrite E in Hin. apply in_app_or in Hin. destruct Hin as [Hin|Hin].
     + destruct (Hr i Hin) as [H1 H2]. split; [lia|]. intros Ht. specialize (H2 Ht). lia.
     + destruct (R i Hin) as [H1 H2]. split; [lia|]. intros Ht. specialize (H2 Ht). lia.
+  - rewrite E, flat_map_app. apply NoDup_app_disjoint; try assumption.
+    intros z Hz1 Hz2.
+    assert (B1 : z <= next_innov e).
+    { apply in_flat_map in Hz1. destruct Hz1 as [i [Hin Hz]]. destruct (Hr i Hin) as [H1 H2].
+      unfold inn_nums in Hz. destruct (Z.eqb_spec (i_type i) 1) as [Et|_].
+      - specialize (H2 Et). destruct Hz as [<-|[<-|[]]]; lia.
+      - destruct Hz as [<-|[]]; lia. }
+    assert (B2 : next_innov e < z <= next_innov e').
+    { apply (inn_nums_bounds _ _ added); [|exact Hz2]. intros i Hin. destruct (R i Hin) as [H1 H2].
+      split; [lia|]. intros Ht. specialize (H2 Ht). lia. }
+    lia.
 Qed.
